@@ -348,6 +348,20 @@ func Run(args []string) *rep.Report {
 		input := buf.Bytes()
 		d := decode(input)
 		execs++
+		if d.ok && len(input) < 64<<10 {
+			// decoded from a bytes.Buffer whose storage the caller then refills: the message keeps what it decoded
+			store := append([]byte(nil), input...)
+			var held message.Message
+			if err := held.UnmarshalCBOR(bytes.NewBuffer(store)); err == nil {
+				for i := range store {
+					store[i] = 0xEE
+				}
+				var re bytes.Buffer
+				if err := held.MarshalCBOR(&re); err != nil || !reflect.DeepEqual(project(&held), d.m) {
+					bad("decoded-aliases-input", tc, fmt.Sprintf("after the buffer it was decoded from was overwritten the message reads %+v, it was decoded as %+v (%v)", project(&held), d.m, err))
+				}
+			}
+		}
 		if len(input) < 64<<10 {
 			if dr := decodeReused(input); dr.ok != d.ok || dr.panic != "" || (d.ok && !reflect.DeepEqual(dr.m, d.m)) {
 				bad("decode-depends-on-earlier-message", tc, fmt.Sprintf("into a fresh Message: ok=%v %+v; into a Message that had been decoded into before: ok=%v %+v %s %s", d.ok, d.m, dr.ok, dr.m, dr.err, dr.panic))
